@@ -24,7 +24,7 @@ theorem C07_accept_shape (d : Defects) (s s' : RStore) (cand : RoomNode) (h : ac
           ((upd = false ∧ s' = s) ∨
            (upd = true ∧ ∃ r, merged.parse = .ok r ∧ s' = installRoom (writeRoom s merged) r))) ∨
      (s.rooms.find? (·.id = cand.node.id) = none ∧
-        ∃ r, prepareNewRoom cand = .ok r ∧ s' = installRoom (writeRoom s cand) r)) :=
+        ∃ r, prepareNewRoom (!d.placingEdgeUnchecked) cand = .ok r ∧ s' = installRoom (writeRoom s cand) r)) :=
   accept_ok h
 
 /-- **C07 (monotone).** In the merged definition of a known room every stored admin entry, every
@@ -88,9 +88,11 @@ theorem C07_new_groups (d : Defects) (room : RoomT) (old cand merged : RoomNode)
 
 /-- **C07 (a room not seen before).** Accepted only if the whole candidate parses (append-only
     histories) and the author of every admin, group, user, right and user-admin entry is an admin,
-    at the entry's date, in the room parsed from it. -/
-theorem C07_new_room (cand : RoomNode) (room : RoomT) (h : prepareNewRoom cand = .ok room) :
+    at the entry's date, in the room parsed from it — and, when the references are checked (`chk`), the author of
+    every reference room → group is an admin at the reference's date. -/
+theorem C07_new_room (chk : Bool) (cand : RoomNode) (room : RoomT) (h : prepareNewRoom chk cand = .ok room) :
     cand.parse = .ok room ∧
+    (chk = true → ∀ e ∈ cand.authEdges, room.isAdmin e.author e.cdate = true) ∧
     (∀ n ∈ cand.adminNodes, room.isAdmin n.author n.mdate = true) ∧
     ∀ a ∈ cand.authNodes, room.isAdmin a.node.author a.node.mdate = true ∧
       (∀ n ∈ a.userNodes, room.isAdmin n.author n.mdate = true) ∧
@@ -103,27 +105,39 @@ theorem C07_new_room (cand : RoomNode) (room : RoomT) (h : prepareNewRoom cand =
 /-- **C07 (authored for that room and that place).** With the intended checks a candidate is accepted
     only if every entry is attached to its list by a placing reference signed by the entry's own
     author, with the list's label and the owner's entity — a reference binds (owner row, label,
-    entry), so an entry cannot be moved to another list, group or room by a third party —, no list carries two rows
-    with one id, and the
+    entry), so an entry cannot be moved to another list, group or room by a third party —, every group is
+    attached to the room by a reference with the groups' label signed by an admin at the reference's date (a group
+    row is re-signed by whoever updates the group, so its reference is tied to the admins, not to the row's author),
+    no list carries two rows with one id, and the
     room row that is written is the candidate's only when it equals the stored one or is a newer
     `sys.Room` row signed by an admin, and the stored one otherwise. -/
 theorem C07_bound_to_place (s s' : RStore) (cand : RoomNode) (h : accept Defects.none s cand = .ok s') :
     cand.placingOk = true ∧ cand.idsDistinct = true ∧
+    (∀ r, s.rooms.find? (·.id = cand.node.id) = none → cand.parse = .ok r →
+      ∀ e ∈ cand.authEdges, r.isAdmin e.author e.cdate = true) ∧
     ∀ room old merged upd, s.rooms.find? (·.id = cand.node.id) = some room → readBack false s cand.node.id = some old →
       prepareWithHistory Defects.none room old cand = some (.ok (merged, upd)) →
-      (rowEq merged.node cand.node = true ∧
+      (∀ e ∈ cand.authEdges, (extendAdmins old.adminNodes room merged.adminNodes).isAdmin e.author e.cdate = true) ∧
+      ((rowEq merged.node cand.node = true ∧
         (rowEq cand.node old.node = true ∨
          (old.node.mdate < cand.node.mdate ∧ cand.node.ent = 100 ∧ room.isAdmin cand.node.author cand.node.mdate = true))) ∨
-      (rowEq merged.node old.node = true ∧ ¬ old.node.mdate < cand.node.mdate) := by
-  refine ⟨(accept_none_placing h).2.2.1, (accept_none_placing h).2.2.2, ?_⟩
-  intro room old merged upd _ _ hprep
-  exact (prepareWithHistory_sound hprep).roomRow rfl
+      (rowEq merged.node old.node = true ∧ ¬ old.node.mdate < cand.node.mdate)) := by
+  refine ⟨(accept_none_placing h).2.2.1, (accept_none_placing h).2.2.2, ?_, ?_⟩
+  · intro r hnone hparse
+    rcases (accept_ok h).2.2 with ⟨room, _, hsome, _⟩ | ⟨_, r', hprep, _⟩
+    · rw [hnone] at hsome; cases hsome
+    · obtain ⟨hp, hg, _⟩ := prepareNewRoom_sound hprep
+      rw [hparse] at hp; cases hp
+      exact hg rfl
+  · intro room old merged upd _ _ hprep
+    exact ⟨(prepareWithHistory_sound hprep).groupEdges rfl, (prepareWithHistory_sound hprep).roomRow rfl⟩
 
-/-- **C07_partial.** On every candidate that passes `candGuard` — today only: the placing references
-    are signed by the entries' authors with the right label and source entity — the code as written
-    decides exactly as the intended checks do, so sections 1 and 2 apply to it. What is missing
-    relative to the full statement is exactly the `placingEdge` witnesses of section 3 (and the order
-    of same-date entries). -/
+/-- **C07_partial.** On every candidate that passes `candGuard` = `candGuardD Defects.asImplemented` — while
+    `placingEdgeUnchecked` is on: every entry is placed by a reference signed by its author with its list's label
+    and its owner's entity, every group is attached by a reference signed by an admin; nothing once the switch is
+    off — the code as written decides exactly as the intended checks do, so sections 1 and 2 apply to it. What is
+    missing relative to the full statement is exactly the `placingEdge` witnesses of section 3 whose switch is still
+    on (and, whatever the switches, the order of same-date entries: `C07_breaks_sameDateReorder`). -/
 theorem C07_partial (s : RStore) (cand : RoomNode) (g : candGuard s cand = true) :
     accept Defects.asImplemented s cand = accept Defects.none s cand :=
   accept_congr g
@@ -163,7 +177,7 @@ def stateOf : Verdict → RStore
   | _ => emptyStore
 
 /-- the instance after it received room 10 -/
-def w0 : RStore := stateOf (accept Defects.asImplemented emptyStore room10)
+def w0 : RStore := stateOf (accept Defects.none emptyStore room10)
 
 def loaded (s : RStore) (id : Nat) : RoomT :=
   (s.rooms.find? (·.id = id)).getD (Discret.Room.Room.empty 0 0)
@@ -175,7 +189,7 @@ theorem C07_breaks_placingEdge_crossList :
     let cand := { room10 with adminNodes := room10.adminNodes ++ [row 105 102 100 0 (.user 2 true)],
                               adminEdges := room10.adminEdges ++ [edge 10 100 32 105 100 6] }
     (loaded w0 10).isAdmin 2 200 = false ∧
-    (loaded (stateOf (accept Defects.asImplemented w0 cand)) 10).isAdmin 2 200 = true ∧
+    (loaded (stateOf (accept Defects.beforeFix w0 cand)) 10).isAdmin 2 200 = true ∧
     accept Defects.none w0 cand = .err .inconsistent := by
   decide
 
@@ -186,7 +200,7 @@ def room40 : RoomNode :=
     adminNodes := [row 200 102 100 0 (.user 0 true), row 201 102 300 0 (.user 6 true)],
     authEdges := [], authNodes := [] }
 
-def w1 : RStore := stateOf (accept Defects.asImplemented w0 room40)
+def w1 : RStore := stateOf (accept Defects.none w0 room40)
 
 /-- **cross-room replay (#22).** The admin entry of room 40 is listed among the admins of room 10
     with a reference signed by key 6: key 6 becomes an admin of room 10. -/
@@ -194,7 +208,7 @@ theorem C07_breaks_placingEdge_crossRoom :
     let cand := { room10 with adminNodes := room10.adminNodes ++ [row 201 102 300 0 (.user 6 true)],
                               adminEdges := room10.adminEdges ++ [edge 10 100 32 201 300 6] }
     (loaded w1 10).isAdmin 6 400 = false ∧
-    (loaded (stateOf (accept Defects.asImplemented w1 cand)) 10).isAdmin 6 400 = true ∧
+    (loaded (stateOf (accept Defects.beforeFix w1 cand)) 10).isAdmin 6 400 = true ∧
     accept Defects.none w1 cand = .err .inconsistent := by
   decide
 
@@ -205,13 +219,32 @@ theorem C07_breaks_placingEdge_crossRoom :
 theorem C07_breaks_placingEdge_label :
     let cand1 := { room10 with authNodes := [{ g102 with userNodes := g102.userNodes ++ [row 110 102 200 3 (.user 5 true)],
                                                           userEdges := g102.userEdges ++ [edge 102 101 35 110 200 3] }] }
-    let s1 := stateOf (accept Defects.asImplemented w0 cand1)
+    let s1 := stateOf (accept Defects.beforeFix w0 cand1)
     let cand2 := { room10 with authNodes := [{ g102 with userNodes := g102.userNodes ++ [row 111 102 300 0 (.user 1 true)],
                                                           userEdges := g102.userEdges ++ [edge 102 101 34 111 300 0] }] }
-    let s2 := stateOf (accept Defects.asImplemented s1 cand2)
+    let s2 := stateOf (accept Defects.beforeFix s1 cand2)
     (loaded s1 10).auths.any (·.canAdminUsers 5 400) = false ∧
     (loaded s2 10).auths.any (·.canAdminUsers 5 400) = true ∧
     accept Defects.none w0 cand1 = .err .inconsistent := by
+  decide
+
+/-- group 402 of room 40 (same admin, key 0, who is also its user admin): `A` own and all rows for user key 6 -/
+def g402 : AuthNode :=
+  { node := row 402 101 100 0 (.other 1),
+    rightEdges := [edge 402 101 33 403 100 0], rightNodes := [row 403 103 100 0 (.right 1 true true)],
+    userEdges := [edge 402 101 34 405 100 0], userNodes := [row 405 102 100 0 (.user 6 true)],
+    userAdminEdges := [edge 402 101 35 404 100 0], userAdminNodes := [row 404 102 100 0 (.user 0 true)], needUpdate := true }
+
+/-- **a whole group replayed into another room (#22).** Group 402 — signed by the admin for room 40, with its
+    entries properly placed in it by the admin — is attached to room 10 by a reference signed by key 6: key 6 may
+    write `A` rows in room 10. The intended check refuses the candidate: the reference room → group is not signed by
+    an admin of room 10. -/
+theorem C07_breaks_placingEdge_groupReplay :
+    let cand := { room10 with authNodes := room10.authNodes ++ [g402],
+                              authEdges := room10.authEdges ++ [edge 10 100 33 402 100 6] }
+    (loaded w0 10).can 6 1 400 .mutateAll = false ∧
+    (loaded (stateOf (accept Defects.beforeFix w0 cand)) 10).can 6 1 400 .mutateAll = true ∧
+    accept Defects.none w0 cand = .err .notAuthorised := by
   decide
 
 /-- **room row replaced unchecked — fixed in /repo 77018f3, kept as a regression witness about
